@@ -22,6 +22,51 @@ def _ops_entry(pid, theorems, focus):
     )
 
 PROPS = {
+    "C17": dict(
+        driver="C17",
+        model="Model/Inotify.v",
+        run_fn="run_incase",
+        theorems=["C17_events_decoded_exactly", "C17_reads_in_bounds", "C17_unnamed_padded_yields_nuls",
+                  "C17_process_fuel_irrelevant", "C17_kernel_exact_pads", "C17_kernel_record_fits_buf",
+                  "C17_kernel_record_aligned", "C17_event_valid_when_handed_out",
+                  "C17_event_stable_until_next_read",
+                  "C17_event_validity_h10_refuted", "C17_h10_overwritten_witness", "C17_h10_dangling_witness"],
+        rule="one splitmix64 stream per case (VERIF_SEED, index): a real Watcher (real inotify_init1; 0..4 real "
+             "inotify_add_watch calls through watch / watch_directory / watch_file on paths of a per-case temporary tree, "
+             "spelled with and without trailing '/', '//', '/.', './', the same inode under two spellings) on a ring of the "
+             "simulated kernel; a script of 0..6 READ completions: batches of 1..5 records or as many as fit 272 bytes, "
+             "0-byte reads, failures (EINVAL, EBADF, EINTR, ENOMEM, EIO, EAGAIN, ECANCELED), then an end (0-byte read or "
+             "failure) in 3 of 5 cases, else the last READ stays pending; records: 85% user-visible with any mask bits "
+             "(single flags, flag|IN_ISDIR, 0, all ones, random u32), 10% IN_IGNORED (alone or with other bits incl. "
+             "IN_Q_OVERFLOW), 5% IN_Q_OVERFLOW; descriptor = one returned by the kernel (5/6) or unknown (0, 9, 77, 1000, -5, "
+             "i32::MIN, i32::MAX); names of length 0 (1/4), 1..15, 16, boundary lengths, 239..254, 255, uniform 1..255, from "
+             "letters / printable ASCII / any byte but NUL and '/' / a fixed set incl. 0x80, 0xff, newline; padding = the "
+             "kernel's (NUL + round up to 16) in 3 of 5 named records, else any of 0..31 that keeps the record 4-byte "
+             "aligned (0 for no name); cookie 0 or random; 0..2 polls after the end; each event kept for 0/1/2/3 further "
+             "polls or to the end and read again (Debug, file_path), kept references probed after drop(events) in 2 of 3 "
+             "cases; non-trivial = at least one user-visible record or two records; distinct by the Coq case term",
+        assumptions=["records are well formed (hypothesis wf_record): name of 0..255 bytes without NUL and '/', fields fit "
+                     "i32/u32, and a record without a name has len = 0 (kernel_pads; inotify(7), fs/notify/inotify/"
+                     "inotify_user.c round_event_name_len) - on the never-emitted shape (no name, len > 0) the code hands "
+                     "out len NUL bytes as the name: C17_unnamed_padded_yields_nuls",
+                     "every read completion carries whole records (read(2) on inotify never splits an event) in at most "
+                     "the 272 bytes asked for",
+                     "records keep the header 4-byte aligned (the kernel pads to 16): a debug build aborts on a misaligned "
+                     "header, so the harness only generates aligned records; the model has no notion of alignment",
+                     "64-bit usize: processed + 16 + len cannot wrap",
+                     "the operation layer under fd.read reissues reads that fail with EINTR / ECANCELED and turns EINVAL into "
+                     "an error of kind Unsupported without errno (src/io_uring/op.rs); modelled by op_restarts / op_errno",
+                     "paths: PathBuf::push on Unix (a separator is added unless the watched path ends in one; a name "
+                     "starting with '/' would replace it - excluded by wf_record)",
+                     "watch descriptors map to the path of the most recent watch call that returned them (HashMap insert)",
+                     "H10: what an outdated reference shows is modelled only while the buffer is allocated (the bytes of "
+                     "the latest read over those of earlier ones); after the iterator ended or was dropped the model says "
+                     "'dangling' and the harness confirms the block was freed by getting it back from the allocator"],
+        trusted=["simulated kernel harness/src/simk.rs (READ completions scripted by the driver)",
+                 "a10 verif hook A (src/verif.rs)",
+                 "Linux inotify_init1 / inotify_add_watch on the running kernel (descriptor numbers only)",
+                 "Event's Debug output as the public view of wd, mask and cookie"],
+    ),
     "C13": dict(
         driver="C13",
         model="Model/Encode.v + Model/ResultDecode.v",
